@@ -538,6 +538,22 @@ def oracle_spans(ctx: Ctx, lines):
                             ctx.fail("span-reverse", case, "reversed() is not the mirror image")
             except Exception:
                 break
+            # functional forms never modify or alias the span they are applied to (resolved or open-ended alike)
+            try:
+                snap = (show_endpoint(s._start), show_endpoint(s._end), s._step)
+                r = s.reversed()
+                c = s.copy()
+                c.shift(2); c.reverse()
+                plus = s + 1
+                ok = r is not s and c is not s and plus is not s
+                ok = ok and (show_endpoint(s._start), show_endpoint(s._end), s._step) == snap
+                ok = ok and (show_endpoint(r._start), show_endpoint(r._end), r._step) == (snap[1], snap[0], -snap[2])
+                if not ok:
+                    ctx.fail("span-functional-form-mutates", case, f"after {op}: reversed()/copy()/+ changed or aliased the span: was {snap}, now "
+                             f"{(show_endpoint(s._start), show_endpoint(s._end), s._step)}")
+                    break
+            except Exception:
+                pass
             if s.needs_resolve or s._step == 0 or type(s._start) is not type(s._end):
                 continue
             want = pyrange_list(s._start.serial, s._end.serial, s._step)
